@@ -75,9 +75,9 @@ def run(ctx):
                 raise Broken("no finite-difference case in regime '%s'" % k)
         if plastic_fd < len(fd) // 5:
             raise Broken("only %d of %d differentiated steps have an inelastic flow" % (plastic_fd, len(fd)))
-        weak = [k for k in tot if 2 * good[k] < tot[k]]
+        weak = [k for k in tot if 10 * good[k] < tot[k]]
         if weak:
-            raise Broken("(behaviour, hypothesis) pairs with more than half of the requests failing: %s" % weak[:5])
+            raise Broken("(behaviour, hypothesis) pairs with less than a tenth of the requests succeeding: %s" % weak[:5])
     return finish(ctx, "exploration", {
         "evaluations": len(obs), "distinct_nontrivial": len({json.dumps({k: v for k, v in byid[m["id"]].items() if k != "id"}, sort_keys=True) for m in fd if m.get("active") or m["regime"] == "onset"}),
         "programs": len(behaviours), "behaviour_hypothesis_pairs": len(tot), "differentiated_steps": len(fd), "steps_whose_perturbed_integrations_all_failed": fd_unavailable,
